@@ -29,7 +29,21 @@ def gen_container(rng, depth=0, maxdepth=3, cx=False, top=True):
         elems = [gen_container(rng, depth + 1, maxdepth, cx, False) for _ in range(arity)]
         return tuple(elems) if k % 2 == 0 else elems
     keys = (["a", "b", "c", "dd"] if rng.uniform() < 0.7 else [0, 3, 7, 11])[:arity]
+    if rng.uniform() < 0.6:
+        # insertion order is not the sorted order
+        keys = [keys[int(t)] for t in rng.permutation(len(keys))]
     return {kk: gen_container(rng, depth + 1, maxdepth, cx, False) for kk in keys}
+
+
+def reinsert(v, rng):
+    """The same nested value with every dict rebuilt in another key insertion order."""
+    if isinstance(v, dict):
+        ks = list(v.keys())
+        ks = [ks[int(t)] for t in rng.permutation(len(ks))]
+        return {k: reinsert(v[k], rng) for k in ks}
+    if isinstance(v, (tuple, list)):
+        return type(v)(reinsert(e, rng) for e in v)
+    return v
 
 
 def gen_leaf(rng, cx):
@@ -160,10 +174,46 @@ def build_access(rng, val, ops_used, depth=0):
             break
     else:
         return None, None
-    op = str(rng.choice(["key", "get", "get_default", "items", "values", "keys_iter", "iter", "ctor_dict", "len_in"]))
+    op = str(rng.choice(["key", "get", "get_default", "items", "values", "keys_iter", "iter", "ctor_dict", "len_in", "get_default_is_leaf", "values_twice", "items_twice", "keys_twice", "items_pos", "keys_pos", "iter_pos", "get_missing_traced_default"]))
     ops_used.append("d:" + op)
+    pos = keys.index(key)
     if op == "key":
         f = lambda c: c[key]
+    elif op == "get_default_is_leaf":
+        # the default handed to get() is the very object stored under the key (e.g. initial parameters)
+        orig = val[key]
+        f = lambda c: c.get(key, orig)
+    elif op == "get_missing_traced_default":
+        f = lambda c: c.get("__missing__", c[key])
+    elif op == "values_twice":
+
+        def f(c):
+            vs = c.values()
+            cnt = sum(1 for _ in vs)
+            return list(vs)[pos] if cnt == len(keys) else None
+
+    elif op == "items_twice":
+
+        def f(c):
+            it = c.items()
+            cnt = sum(1 for _ in it)
+            for k, v in it:
+                if k == key and cnt == len(keys):
+                    return v
+
+    elif op == "keys_twice":
+
+        def f(c):
+            ks = c.keys()
+            cnt = sum(1 for _ in ks)
+            return c[list(ks)[pos]] if cnt == len(keys) else None
+
+    elif op == "items_pos":
+        f = lambda c: list(c.items())[pos][1]
+    elif op == "keys_pos":
+        f = lambda c: c[list(c.keys())[pos]]
+    elif op == "iter_pos":
+        f = lambda c: c[list(c)[pos]]
     elif op == "get":
         f = lambda c: c.get(key)
     elif op == "get_default":
@@ -176,7 +226,6 @@ def build_access(rng, val, ops_used, depth=0):
                     return v
 
     elif op == "values":
-        pos = keys.index(key)
         f = lambda c: list(c.values())[pos]
     elif op == "keys_iter":
 
@@ -395,6 +444,13 @@ def run_flatten_case(res, case):
             rhs = a * realify(unflatten(u)) + b * realify(unflatten(u2))
             if not onp.allclose(lhs, rhs, rtol=1e-14, atol=1e-14):
                 return viol("unflatten_linear", "")
+            # another value of the same nesting whose dicts were filled in another order: the pair
+            # (flatten, unflatten) built from `val` must serve it too (the layout is a function of the nesting)
+            val2 = reinsert(common.tree_map(lambda l: l * 1.5 + 0.25, val), rng)
+            flat2 = flatten(val2)[0]
+            back2 = unflatten(flat2)
+            if sdesc_diff(sdesc(val2), sdesc(back2)) not in (None, "wrong_dtype") or not onp.array_equal(realify(back2), realify(val2)):
+                return viol("unflatten_other_insertion_order", "unflatten (built from v) applied to flatten(v2), v2 = same nesting with dict keys inserted in another order, is not v2: %s vs %s" % (common.brief(back2, 200), common.brief(val2, 200)))
             # commutation with grad
             if n:
                 f, ops_used, nacc = make_program(rng, val)
